@@ -596,6 +596,22 @@ func (d *protoDom) streamCall(st *sState, call *ssa.Call, name string, args []sV
 	case "sm3.compress":
 		recv, ok1 := args[0].(gRecv)
 		msg, ok2 := args[1].(gSlice)
+		if !ok2 {
+			// the block handed over as a pointer to a 64-byte array: a local array, or the buffer field of the receiver
+			blk := args[1]
+			if gf, isF := blk.(gField); isF {
+				if cal := call.Call.StaticCallee(); cal != nil && cal.Signature.Params().Len() == 1 {
+					if pa, isP := cal.Signature.Params().At(0).Type().Underlying().(*types.Pointer); isP {
+						if at, isA := pa.Elem().Underlying().(*types.Array); isA {
+							blk = d.fieldValue(st, gf, at)
+						}
+					}
+				}
+			}
+			if a, isA := blk.(gArr); isA && a.n*a.esz == 64 {
+				msg, ok2 = gSlice{a.obj, pC(a.base), pC(64), pC(64), 1}, true
+			}
+		}
 		if !ok1 || !ok2 {
 			e.fail("cf called at %s with a receiver or a block the domain does not model", pos)
 			set(sNil{})
@@ -711,7 +727,17 @@ func sm3CompressFn(p *Prog) *ssa.Function {
 		if sig.Recv() == nil || sig.Results().Len() != 0 || sig.Params().Len() != 1 || len(fn.Params) != 2 {
 			continue
 		}
-		if sl, ok := sig.Params().At(0).Type().Underlying().(*types.Slice); !ok || elemSize(sl.Elem()) != 1 {
+		// the block: a byte slice, or a pointer to a 64-byte array
+		if sl, ok := sig.Params().At(0).Type().Underlying().(*types.Slice); ok {
+			if elemSize(sl.Elem()) != 1 {
+				continue
+			}
+		} else if pa, ok := sig.Params().At(0).Type().Underlying().(*types.Pointer); ok {
+			at, ok := pa.Elem().Underlying().(*types.Array)
+			if !ok || at.Len() != 64 || elemSize(at.Elem()) != 1 {
+				continue
+			}
+		} else {
 			continue
 		}
 		pt0, ok := sig.Recv().Type().Underlying().(*types.Pointer)
